@@ -184,6 +184,14 @@ Proof.
   exact (valid_unsized fs init last b Hne Hs (valid_sized_part fs Hal Hc Hn Hz) Hi Hl).
 Qed.
 
+(* ---- the decision does not depend on the way a generic declaration writes its bounds: the encoding's G component is
+   k + 100 * style (style 0 none | 1 inline `T: Copy` | 2 `where T: Copy` clause) and every style decides like style 0 ---- *)
+Theorem C19_bound_style_irrelevant :
+  forall (m f k s : Z) (rest : list Z),
+    0 < k < 100 -> 0 <= s <= 2 ->
+    run_c19 (m :: f :: (k + 100 * s) :: rest) = run_c19 (m :: f :: k :: rest).
+Proof. exact bound_style_irrelevant. Qed.
+
 (* ---- non-vacuity: the theorems' hypotheses are met by real declarations, and the models compute ---- *)
 Definition ex_bool : fld := mk 1 1 true true true true false VBool.
 Definition ex_tri : fld := mk 1 1 true true true true false VLe2.
@@ -233,4 +241,12 @@ Example C19_nonvacuous_zst_enum :
   /\ umenu 10 = Some may_end_empty /\ umenu 11 = Some never_empty /\ umenu 12 = Some of_zst_struct
   /\ run_c19 [5; 0; 0; 0; 1; 1; 0; 2; 10; 0] = [0]                               (* struct { u8, EnumMayEndEmpty, List<u8> } *)
   /\ run_c19 [5; 0; 0; 0; 1; 1; 0; 2; 11; 0] = [1; 1; 1; 1; 8; 1; 1; 1; 1; 1; 1; 1; 1].
+Proof. vm_compute. repeat split; reflexivity. Qed.
+
+(* the bound styles through the runner: struct D<T> where T: Copy { f0: u8, f1: T } with T = u64 is rejected like its
+   style-0 twin, with T = u8 it is certified; a style without a parameter or an unknown style is not an encoding *)
+Example C19_nonvacuous_bound_style :
+  run_c19 [0; 0; 213; 0; 1; 2; 0; 99; 0] = [0] /\ run_c19 [0; 0; 13; 0; 1; 2; 0; 99; 0] = [0]
+  /\ run_c19 [0; 0; 201; 0; 1; 2; 0; 99; 0] = [1; 1; 2; 2; 0] /\ run_c19 [0; 0; 101; 0; 1; 2; 0; 99; 0] = [1; 1; 2; 2; 0]
+  /\ run_c19 [0; 0; 200; 0; 1; 1; 0; 0] = [-1] /\ run_c19 [0; 0; 301; 0; 1; 2; 0; 99; 0] = [-1].
 Proof. vm_compute. repeat split; reflexivity. Qed.
